@@ -65,6 +65,7 @@ def _eval_chunk(modname, fnname, chunk):
         "viol": [],
         "cnt": collections.Counter(),
         "sample": None,
+        "sets": {},
     }
     for case in chunk:
         try:
@@ -97,6 +98,8 @@ def _eval_chunk(modname, fnname, chunk):
             agg["cnt"]["violating_cases"] += 1
         for k, v in (rec.get("cnt") or {}).items():
             agg["cnt"][k] += v
+        for k, v in (rec.get("sets") or {}).items():
+            agg["sets"].setdefault(k, set()).update(x if isinstance(x, int) else h64(x) for x in v)
         if rec.get("sample") is not None and agg["sample"] is None:
             agg["sample"] = rec["sample"]
     return agg
@@ -182,6 +185,7 @@ class Run:
         self.out = collections.Counter()
         self.cnt = collections.Counter()
         self.violations = []
+        self.sets = {}
         self.samples = []
         self.cov = {}  # extra coverage keys set by the module
         self.assumptions = []
@@ -196,6 +200,8 @@ class Run:
         self.out.update(agg["out"])
         self.nt |= agg["nt"]
         self.cnt.update(agg["cnt"])
+        for k, v in agg.get("sets", {}).items():
+            self.sets.setdefault(k, set()).update(v)
         if len(self.violations) < 2000:
             self.violations.extend(agg["viol"])
         if agg.get("sample") is not None and len(self.samples) < 5:
@@ -242,6 +248,8 @@ class Run:
             "counters": dict(self.cnt),
             "known_findings_hit": {k: m[1] for k, m in matched.items()},
         }
+        for k, v in self.sets.items():
+            cov[k] = len(v)
         cov.update(self.cov)
         ev = {
             "property_id": self.pid,
@@ -260,6 +268,11 @@ class Run:
             f.write("\n")
         _validate_evidence(evp)
 
+        rdir = os.path.join(VERIF, "replays", self.pid)
+        if os.path.isdir(rdir):
+            for fn in os.listdir(rdir):
+                if fn.endswith(".json"):
+                    os.unlink(os.path.join(rdir, fn))
         for kid, (e, n, v) in matched.items():
             print(f"KNOWN-FINDING: property={self.pid} {e['id']}: {e['what']} ({n} cases)", flush=True)
         rc = 0
